@@ -12,6 +12,8 @@ from .. import indicators as X
 from hexital import Hexital  # noqa: E402
 
 TF_LADDER = ["T1", "T5", "T15", "H1"]
+TF_MIX = ["T2", "T3", "T5", "T10", "T15", "T45", "H1", "H2"]
+TF_MIX5 = ["T10", "T15", "T45", "H1", "H2"]
 
 
 def member_view(ind) -> List[Dict]:
@@ -164,6 +166,7 @@ def gen_case(rng, ctx) -> Dict:
     if rng.random() < 0.2:
         hcfg["lifespan"] = rng.choice([step * 20, step * 50, 3600 * 5])
     specs, tfs = [], []
+    mixed = rng.random() < 0.4
     for j in range(rng.randint(1, 4)):
         s = X.gen_spec(rng, rng.choice(X.KINDS), inputs=("close", "high"))
         if s["kind"] == "COUNTER":
@@ -171,6 +174,9 @@ def gen_case(rng, ctx) -> Dict:
         s["fullname"] = f"M{j}_{s['kind']}"
         lo = TF_LADDER.index(hcfg["tf"]) + 1 if hcfg.get("tf") else 0
         tf = rng.choice([None, None] + TF_LADDER[lo:]) if lo < len(TF_LADDER) else None
+        if mixed:
+            # any mix: member timeframes need not divide one another (multiples of the base timeframe only)
+            tf = rng.choice([None] + (TF_MIX if hcfg.get("tf") != "T5" else [t for t in TF_MIX if t in TF_MIX5]))
         specs.append(s)
         tfs.append(tf)
     init_n = rng.choice([0, 1, n, rng.randint(0, n)])
